@@ -115,3 +115,80 @@ Proof.
   intros Hp Hw Hu. destruct (wf_resource_nest (map join_entry t) Hw Hu) as [d Hd].
   exists d. apply (shape_join_snest d t (parse_shape bs t errs Hp) Hd).
 Qed.
+
+(* ---------------------------------------------------------------------------------------------- *)
+(* the UTF-8 premise follows from the input                                                         *)
+From FluentV Require Import Syntax.SerializerProofs Syntax.SerializerCalls Syntax.ParserUtf8.
+
+Lemma utf8_join_elements l : forallb utf8_element l = true -> forallb utf8_element (join_elements l) = true.
+Proof.
+  induction l as [|x r IH]; intros H; [reflexivity|]. cbn [forallb] in H. apply andb_prop in H as [Hx Hr]. specialize (IH Hr).
+  destruct x as [a | e]; cbn [join_elements].
+  - destruct (join_elements r) as [|[b | e2] r'] eqn:Ej; cbn [forallb utf8_element] in *.
+    + rewrite Hx. reflexivity.
+    + apply andb_prop in IH as [Hb Hr']. rewrite (utf8_valid_app_intro a b Hx Hb), Hr'. reflexivity.
+    + rewrite Hx, IH. reflexivity.
+  - cbn [forallb]. rewrite Hx, IH. reflexivity.
+Qed.
+
+Theorem utf8_join_ast :
+  (forall i, utf8_inline i = true -> utf8_inline (join_inline i) = true) /\
+  (forall e, utf8_expr e = true -> utf8_expr (join_expr e) = true) /\
+  (forall v, utf8_variant v = true -> utf8_variant (join_variant v) = true) /\
+  (forall p, utf8_pattern p = true -> utf8_pattern (join_pattern p) = true) /\
+  (forall x, utf8_element x = true -> utf8_element (join_element x) = true) /\
+  (forall a, utf8_args a = true -> utf8_args (join_args a) = true) /\
+  (forall n, utf8_named n = true -> utf8_named (join_named n) = true).
+Proof.
+  apply ast_mutind.
+  - intros v H; exact H.
+  - intros v H; exact H.
+  - intros id a IH H. cbn [utf8_inline join_inline] in *. apply andb_prop in H as [H1 H2]. rewrite H1, (IH H2). reflexivity.
+  - intros id att H; exact H.
+  - intros id att a IH H. cbn [utf8_inline join_inline] in *. apply andb_prop in H as [H H3]. rewrite H. cbn [andb].
+    destruct a as [a|]; [apply (IH H3) | reflexivity].
+  - intros id H; exact H.
+  - intros e IH H. cbn [utf8_inline join_inline] in *. apply (IH H).
+  - intros s vs IHs IHvs H. rewrite join_expr_select. rewrite utf8_select in *. apply andb_prop in H as [H1 H2].
+    rewrite (IHs H1). cbn [andb]. rewrite forallb_forall in *. intros v Hv. apply in_map_iff in Hv as (v0 & <- & Hv0).
+    rewrite Forall_forall in IHvs. apply (IHvs v0 Hv0 (H2 v0 Hv0)).
+  - intros i IH H. cbn [utf8_expr join_expr] in *. apply (IH H).
+  - intros k p d IH H. cbn [utf8_variant join_variant] in *. apply andb_prop in H as [H1 H2]. rewrite H1, (IH H2). reflexivity.
+  - intros els IH H. rewrite join_pattern_els. rewrite utf8_pattern_els in *. apply utf8_join_elements.
+    clear - IH H. induction els as [|x r IHr]; [reflexivity|]. cbn [forallb] in H. apply andb_prop in H as [Hx Hr].
+    inversion IH; subst. cbn [join_els_map forallb]. rewrite (H1 Hx), (IHr H2 Hr). reflexivity.
+  - intros v H; exact H.
+  - intros e IH H. cbn [utf8_element join_element] in *. apply (IH H).
+  - intros pos named IHp IHn H. rewrite join_args_eq. rewrite utf8_args_eq in *. apply andb_prop in H as [H1 H2].
+    apply andb_true_intro. split; rewrite forallb_forall in *.
+    + intros x Hx. apply in_map_iff in Hx as (x0 & <- & Hx0). rewrite Forall_forall in IHp. apply (IHp x0 Hx0 (H1 x0 Hx0)).
+    + intros x Hx. apply in_map_iff in Hx as (x0 & <- & Hx0). rewrite Forall_forall in IHn. apply (IHn x0 Hx0 (H2 x0 Hx0)).
+  - intros n v IH H. cbn [utf8_named join_named] in *. apply andb_prop in H as [H1 H2]. rewrite H1, (IH H2). reflexivity.
+Qed.
+
+Lemma utf8_join_entry e : utf8_entry e = true -> utf8_entry (join_entry e) = true.
+Proof.
+  destruct utf8_join_ast as (_ & _ & _ & HP & _).
+  assert (Ha : forall attrs, forallb utf8_attribute attrs = true -> forallb utf8_attribute (map join_attribute attrs) = true).
+  { intros attrs H. rewrite forallb_forall in *. intros a Hin. apply in_map_iff in Hin as (a0 & <- & Ha0). specialize (H a0 Ha0).
+    unfold utf8_attribute, join_attribute in *. cbn [attr_id attr_value]. apply andb_prop in H as [H1 H2]. rewrite H1, (HP _ H2). reflexivity. }
+  destruct e as [id [p|] attrs c | id p attrs c | c | c | c | j]; cbn [utf8_entry join_entry option_map]; intros H; try exact H.
+  - apply andb_prop in H as [H Hc]. apply andb_prop in H as [H Hat]. apply andb_prop in H as [Hid Hp].
+    rewrite Hid, (HP p Hp), (Ha attrs Hat), Hc. reflexivity.
+  - apply andb_prop in H as [H Hc]. apply andb_prop in H as [H Hat]. apply andb_prop in H as [Hid _].
+    rewrite Hid, (Ha attrs Hat), Hc. reflexivity.
+  - apply andb_prop in H as [H Hc]. apply andb_prop in H as [H Hat]. apply andb_prop in H as [Hid Hp].
+    rewrite Hid, (HP p Hp), (Ha attrs Hat), Hc. reflexivity.
+Qed.
+
+Theorem join_utf8 t : wf_utf8_resource t = true -> wf_utf8_resource (map join_entry t) = true.
+Proof.
+  unfold wf_utf8_resource. rewrite !forallb_forall. intros H e He. apply in_map_iff in He as (e0 & <- & He0). apply utf8_join_entry, H, He0.
+Qed.
+
+(* C04's fragment membership from the input being a Rust str *)
+Theorem parser_output_snest_str bs t errs : utf8_valid bs = true -> parse bs = Done (t, errs) ->
+  wf_resource (map join_entry t) = true -> exists d, snest_resource d t = true.
+Proof.
+  intros Hb Hp Hw. apply (parser_output_snest bs t errs Hp Hw). apply join_utf8, (parse_utf8 bs t errs Hb Hp).
+Qed.
